@@ -146,6 +146,9 @@ def main():
         "engines": [
             {"name": "tlc", "path": "/usr/local/bin/tlc", "serves_properties": sorted(CHECKS),
              "kind_free_text": "TLC 1.8.0 explicit-state model checker; specs under /verif/spec"},
+            {"name": "eperf_shim", "path": "/verif/harness/eperf_shim.c", "serves_properties": ["C01", "C02", "C03", "C04", "C10"],
+             "kind_free_text": "applis/eperftool rebuilt with every API call routed through a tracing shim: the repository's own "
+                               "test command lines become traces validated by ApiTrace"},
             {"name": "of_driver", "path": "/verif/harness/of_driver.c", "serves_properties": sorted(CHECKS),
              "kind_free_text": "conformance harness: replays behaviours in the real library (ASan, allocation ledger) "
                                "and records ndjson traces validated by TLC"},
